@@ -383,7 +383,7 @@ func headOf(b []byte, n int) []byte {
 	return b
 }
 
-var env = &wprog.Env{NoCompressed: true}
+var env = &wprog.Env{NoCompressed: true, SmallValues: true}
 
 // Run is the check.
 func Run(tier string) int {
@@ -396,7 +396,7 @@ func Run(tier string) int {
 	r.Assume("object spans (header offset, offset past endobj) and values from ref/pdffile", "stream data is judged only when /Length is available in the remaining bytes (direct, or its indirect object complete)", "unencrypted documents")
 	if !r.Thorough() {
 		// the quick tier leaves out the high object numbers (they make every xref table 7 KiB long)
-		env = &wprog.Env{NoCompressed: true, NoHigh: true}
+		env = &wprog.Env{NoCompressed: true, NoHigh: true, SmallValues: true}
 	}
 	pl := plans(r.Thorough())
 	items := wprog.Items(pl, env, 3)
